@@ -567,7 +567,7 @@ func runModelCase(rt *rapid.T, rec *simkit.Recorder, backend string, factory bac
 			defer cleanup()
 		}
 		if err != nil {
-			rt.Fatalf("harness: cannot materialise input root in backend %s: %v; script=%+v", backend, err, sc)
+			rt.Fatalf("VERIF-INCONCLUSIVE harness: cannot materialise input root in backend %s: %v; script=%+v", backend, err, sc)
 		}
 	}
 
@@ -581,7 +581,7 @@ func runModelCase(rt *rapid.T, rec *simkit.Recorder, backend string, factory bac
 			// the model tree so that it is compared in the same way.
 			after, rerr := readBack()
 			if rerr != nil {
-				rt.Fatalf("harness: read back: %v; script=%+v", rerr, sc)
+				rt.Fatalf("VERIF-INCONCLUSIVE harness: read back: %v; script=%+v", rerr, sc)
 			}
 			*root = *after
 		}
@@ -605,7 +605,7 @@ func runModelCase(rt *rapid.T, rec *simkit.Recorder, backend string, factory bac
 	sc.Produced = root.render()
 	if sync != nil {
 		if err := sync(root); err != nil {
-			rt.Fatalf("harness: cannot materialise produced tree in backend %s: %v; script=%+v", backend, err, sc)
+			rt.Fatalf("VERIF-INCONCLUSIVE harness: cannot materialise produced tree in backend %s: %v; script=%+v", backend, err, sc)
 		}
 	}
 	if clobbered {
@@ -625,7 +625,7 @@ func runModelCase(rt *rapid.T, rec *simkit.Recorder, backend string, factory bac
 	if readBack != nil {
 		after, err := readBack()
 		if err != nil {
-			rt.Fatalf("harness: read back: %v; script=%+v", err, sc)
+			rt.Fatalf("VERIF-INCONCLUSIVE harness: read back: %v; script=%+v", err, sc)
 		}
 		if !equalTrees(before, after) {
 			rt.Fatalf("UploadOutputs modified the build directory: now %v; script=%+v", after.render(), sc)
